@@ -413,11 +413,19 @@ def catalogue(rng, limit=None):
         plans = plans[:limit]
     for k, (scope, n, a, b, ca, cb, fl, twin) in enumerate(plans):
         m = Module("K%d" % k, rng.choice(["EXPLICIT", "IMPLICIT", "AUTOMATIC"]))
-        m.add("S", Type("INTEGER"))
-        m.add("U", Type("CHOICE", comps=[Comp("ux", Type("INTEGER")), Comp("uy", Type("IA5String"))]))
-        m.add("V", Type("CHOICE", comps=[Comp("vy", Type("VisibleString"))], ext=[Comp("vx", Type("INTEGER"))]))
-        m.add("W2", Type("CHOICE", comps=[Comp("wx", Type("INTEGER")), Comp("wq", Type("UTCTime"))]))
-        m.add("W", Type("CHOICE", comps=[Comp("wy", Type("GeneralizedTime")), Comp("wz", Type("REF", ref="W2"))]))
+        # the carrier type T is defined before or after the types it refers to (automatic tagging of a CHOICE defined
+        # later must already be in effect when T looks through it)
+        t_first = rng.random() < 0.5
+        if t_first:
+            m.add("T", None)
+
+        def add_refs():
+            m.add("S", Type("INTEGER"))
+            m.add("U", Type("CHOICE", comps=[Comp("ux", Type("INTEGER")), Comp("uy", Type("IA5String"))]))
+            m.add("V", Type("CHOICE", comps=[Comp("vy", Type("VisibleString"))], ext=[Comp("vx", Type("INTEGER"))]))
+            m.add("W2", Type("CHOICE", comps=[Comp("wx", Type("INTEGER")), Comp("wq", Type("UTCTime"))]))
+            m.add("W", Type("CHOICE", comps=[Comp("wy", Type("GeneralizedTime")), Comp("wz", Type("REF", ref="W2"))]))
+        add_refs()
 
         def carrier(kind, other=False):
             if other:
@@ -443,11 +451,19 @@ def catalogue(rng, limit=None):
                 else:
                     c.optional = True
             comps.append(c)
+        manual = ""
+        if m.tagdefault == "AUTOMATIC" and rng.random() < 0.6:
+            # one manual tag switches automatic tagging off for T: the automatically tagged alternatives of the CHOICEs
+            # it looks through ([0], [1]) now meet T's own tags
+            ci = rng.randrange(n)
+            num = rng.choice([0, 0, 1, 9])
+            comps[ci].type.tag = ("C", num, None)
+            manual = ":manual[%d]@%d" % (num, ci)
         m.add("T", Type(scope, comps=comps))
         for t in m.types.values():
             _setmod(t, m)
         m.finalize()
-        yield "catalogue:%s:%s/%s%s" % (scope, ca, cb, ":twin" if twin else ""), m
+        yield "catalogue:%s:%s/%s%s%s%s" % (scope, ca, cb, ":twin" if twin else "", ":T-first" if t_first else "", manual), m
 
 
 def inject_all(mod, rng, limit=8):
